@@ -132,6 +132,7 @@ func rulesC14(c *Ctx, r *Report) {
 		}
 	}
 	rulesReadingFrames(c, r)
+	rulesGrdFuncs(c, r, []*ssa.Function{c.fn("sequtil", "TranslateReadingFrames"), c.fn("sequtil", "Translate")}, 8, "bounds goals in TranslateReadingFrames (seq[min(i,len):], sub[:len/3*3]) and Translate (src[i:i+3], buf[j])")
 	rulesEffC14(c, r)
 }
 
